@@ -212,7 +212,7 @@ class Tokenizer(object):
         the LISP rules.
         This is the method doing the heavy-lifting of tokenization.
         """
-        spaces = {" ", "\n", "\t"}
+        spaces = {" ", "\n", "\t", "\r"}
         separators = {"(", ")", "|", "\""}
         specials = spaces | separators | {";", ""}
 
